@@ -1,6 +1,7 @@
 import GMGDriver.GridDrv
 import GMGDriver.LinalgDrv
 import GMGDriver.ObjectsDrv
+import GMGDriver.OpsDrv
 
 def main (args : List String) : IO UInt32 := do
   match args with
@@ -8,6 +9,7 @@ def main (args : List String) : IO UInt32 := do
   | ["tridiag"] => LinalgDrv.tridiagMain
   | ["lu"] => LinalgDrv.luMain
   | ["objects"] => ObjectsDrv.main
+  | ["residual"] => OpsDrv.residualMain
   | _ => do
     IO.eprintln "usage: gmgdriver <grid|tridiag|lu|...>  (reads the harness line protocol on stdin)"
     return 2
